@@ -248,6 +248,8 @@ example : validName exName = true ∧ validName exMachine = true ∧ validName [
 /-- refused wherever the separator stands, also after a line break -/
 example : validName ['a', '\n', ':', 'b'] = false ∧ validName ['a', '/'] = false ∧ validName [':'] = false := by
   decide
+/-- region and account as configured / as the role ARN pattern `[0-9]+` yields them hold no ':' -/
+example : ':' ∉ exRegion ∧ ':' ∉ exAccount ∧ (':' ∉ exMachine ∧ '/' ∉ exMachine) ∧ ':' ∉ exName := by decide
 /-- `exec_to_machine` / `derivations_agree` on a concrete accepted pair of names -/
 example : mintExecutionArn (mintStateMachineArn exRegion exAccount exMachine) exName
       = some "arn:aws:states:local:0123:execution:my_sm:my-exec.1".toList ∧
